@@ -247,6 +247,28 @@ PROPS["C18"] = dict(
                  "the fresh-parser outcome is the reference: a statement a fresh parser mis-parses the same way is not detected here"],
 )
 
+PROPS["C16"] = dict(
+    simulated=True,
+    level="exploration",
+    instrument=ENGINE_FILES + ["bql/lexer/lexer.go"],
+    budget=dict(quick=30, thorough=600),
+    rule="input texts from the C08 sources (structured statements of all kinds, random derivations of the grammar table, token-level mutations and truncations, random bytes; 10%: two texts "
+         "concatenated) are lexed by lexer.New(text, capacity) with the lexer's producer goroutine instrumented (a yield before every statement of bql/lexer/lexer.go) and a consumer task "
+         "draining the channel, both under the seeded scheduler: per input one sequential reference run (capacity 0, no preemption) and three runs with drawn capacity in {0,1,2,3,8,64}, "
+         "schedule seed, 0-5 preemptions and consumer pace (never / always / sometimes yielding between two receives). Oracles on every run: the lexer terminates (no step cap, no deadlock), "
+         "the channel is closed, the producer goroutine is gone afterwards, no panic; the token texts occur in the input left to right without overlap (earliest-match embedding); exactly one "
+         "end-of-input or error token, as the last one. Across runs: the token sequence (types, texts, error messages) is identical to the reference run whatever the capacity and interleaving. "
+         "Labelled input-level probe (not simulation): for inputs that lex without error, replacing every white-space gap between two tokens by other white space, and flipping the letter case of "
+         "keyword tokens / literal type names, leaves types and texts (up to case) unchanged. Non-trivial: more than one token and at least one scheduling decision with >= 2 runnable tasks; "
+         "distinct = distinct inputs",
+    components_real=["bql/lexer (real code, instrumented scratch copy: the producer goroutine is scheduled by the seed)"],
+    components_stub=["consumer task draining the token channel (harness)", "seeded scheduler in a synctest bubble (x/sim)"],
+    assumptions=["what the simulation contributes is the capacity / interleaving dimension and termination, closure, goroutine exit; that each token sequence is the right one for its input is judged only by the "
+                 "structural oracles (ordered substrings, terminal token) and the case / white-space probes - the lexer's token classes themselves are taken from the implementation",
+                 "the clause 'the printed form of a node, predicate, ... is emitted as one token' is exercised through the structured statements (which print such values) but not judged separately",
+                 "a consumer that abandons the channel leaves the producer blocked by design of the API (LLk.Drain exists for that); not an oracle here, the parser-level consequence is C08's"],
+)
+
 # ---------------------------------------------------------------------------
 # Texts for MANIFEST.json (level claimed, trusted base, technique)
 MANIFEST_TEXT = {}
@@ -318,3 +340,8 @@ MANIFEST_TEXT["C18"] = dict(
     text="seeded exploration of statement histories with aborts at arbitrary tokens on one stateful parser / hook set, each outcome compared with a fresh parser",
     note="trusted base: the canonical statement rendering through semantic.Statement's exported accessors; only the history clause of C18 is claimed",
     technique="deterministic fault injection on a stateful object: aborted operations (statement cut / damaged at any token) interleaved with complete ones, differential oracle against a fresh instance")
+
+MANIFEST_TEXT["C16"] = dict(
+    text="seeded exploration of inputs x channel capacities x producer/consumer interleavings with the lexer goroutine instrumented: termination, closure, goroutine exit and structural token oracles on every run, token sequence identical to a sequential reference run",
+    note="trusted base: x/sim scheduler + synctest bubble accounting, the instrumenter, the earliest-match embedding; inputs are sampled; the token classes are the implementation's",
+    technique="deterministic simulation: the lexer's producer goroutine (instrumented scratch copy) against a consumer task under the seeded scheduler over all channel capacities; metamorphic oracle against a sequential reference run plus structural oracles; bubble-end goroutine accounting")
